@@ -232,6 +232,17 @@ def _confirm_edit(payload, cls):
     out = f(*args)
     audit.mutables(out, oa, keep, "out")
     objs = {id(o): o for o in keep}
+    if cls.startswith("other:view:"):
+        # a returned Pauli list whose arrays are views of the caller's: flip it in place
+        in_arr = [pa for k, a in enumerate(args) for pa in audit.pauli_arrays(a, "arg%d" % k)]
+        for po, ao in audit.pauli_arrays(out, "out"):
+            if ao.size and ao.dtype == bool and any(ai.size and np.shares_memory(ao, ai) for _, ai in in_arr):
+                np.logical_not(ao, out=ao)
+                break
+        try:
+            return [audit.fp(a) for a in args] != before
+        except Exception:
+            return True
     for i, p in oa.items():
         if i in ina and audit.classify(p, ina[i]) == cls:
             o = objs.get(i)
